@@ -55,13 +55,13 @@ Qed.
 
 Lemma has_prefix_iff : forall p s, has_prefix s p = true <-> exists r, s = p ++ r.
 Proof.
-  induction p as [|y p IH]; intros s; cbn.
-  - split; [intros _; now exists s|intros _; destruct s; reflexivity].
-  - destruct s as [|x s].
-    + split; [discriminate|intros [r Hr]; discriminate].
-    + rewrite andb_true_iff, byte_eqb_eq, IH. split.
-      * intros [-> [r ->]]. now exists r.
-      * intros [r Hr]. inversion Hr; subst. split; [reflexivity|now exists r].
+  induction p as [|y p IH]; intros [|x s]; cbn.
+  - split; [intros _; now exists []|reflexivity].
+  - split; [intros _; now exists (x :: s)|reflexivity].
+  - split; [discriminate|intros [r Hr]; discriminate].
+  - rewrite andb_true_iff, byte_eqb_eq, IH. split.
+    + intros [-> [r ->]]. now exists r.
+    + intros [r Hr]. inversion Hr; subst. split; [reflexivity|now exists r].
 Qed.
 
 (** Two prefixes of one string that have the same length are equal. *)
@@ -179,7 +179,9 @@ Proof.
   destruct (drop_while_eq slash (rev (drop_while_eq slash x))) as [|y r] eqn:E.
   - left. reflexivity.
   - right. apply drop_while_head in E. split.
-    + unfold has_suffix. cbn [rev]. rewrite rev_involutive. cbn.
+    + unfold has_suffix.
+      change (rev (slash :: rev (y :: r))) with (rev (rev (y :: r)) ++ [slash]).
+      rewrite rev_involutive. cbn.
       apply byte_eqb_neq in E. now rewrite E.
     + exists (rev (y :: r)). split; [|reflexivity].
       cbn. intros H. apply app_eq_nil in H as [_ H]. discriminate.
@@ -196,9 +198,1303 @@ Proof. intros H. unfold ensure_trailing_slash. now rewrite H. Qed.
 
 Lemma ets_idem p : ensure_trailing_slash (ensure_trailing_slash p) = ensure_trailing_slash p.
 Proof.
-  unfold ensure_trailing_slash at 2. destruct (has_suffix p [slash]) eqn:E.
-  - unfold ensure_trailing_slash. now rewrite E.
-  - unfold ensure_trailing_slash.
+  destruct (has_suffix p [slash]) eqn:E.
+  - unfold ensure_trailing_slash. rewrite E. now rewrite E.
+  - rewrite (ets_nonroot p E).
     assert (H : has_suffix (p ++ [slash]) [slash] = true) by (apply has_suffix_iff; now exists p).
-    now rewrite H.
+    unfold ensure_trailing_slash. now rewrite H.
+Qed.
+
+(** * Part 2: prefix matching on segment boundaries *)
+
+(** Declarative reading of
+    [HasPrefix(EnsureTrailingSlash(path), EnsureTrailingSlash(prefix))]. *)
+Definition seg_match (path p : str) : Prop :=
+  (p = root_path /\ (path = [] \/ exists r, path = slash :: r)) \/
+  path = p \/
+  exists r, path = p ++ slash :: r.
+
+Lemma prefix_matches_root path :
+  prefix_matches path root_path = true <-> path = [] \/ exists r, path = slash :: r.
+Proof.
+  unfold prefix_matches. rewrite ets_root, has_prefix_iff. unfold root_path.
+  destruct path as [|b r].
+  - split; [intros _; now left|intros _; now exists []].
+  - unfold ensure_trailing_slash. destruct (has_suffix (b :: r) [slash]).
+    + split.
+      * intros [r0 H]. inversion H; subst. right. now exists r0.
+      * intros [H|[r0 H]]; [discriminate|]. inversion H; subst. now exists r0.
+    + split.
+      * intros [r0 H]. inversion H; subst. right. now exists r.
+      * intros [H|[r0 H]]; [discriminate|]. inversion H; subst. now exists (r0 ++ [slash]).
+Qed.
+
+Lemma has_prefix_snoc (a b : str) c :
+  has_prefix (a ++ [c]) (b ++ [c]) = true <-> a = b \/ exists r, a = b ++ c :: r.
+Proof.
+  rewrite has_prefix_iff. split.
+  - intros [r Hr]. destruct r as [|x r].
+    + rewrite app_nil_r in Hr. apply app_inj_tail in Hr as [H _]. now left.
+    + destruct (exists_last (l := x :: r)) as (l' & z & El); [discriminate|].
+      rewrite El in Hr. rewrite !app_assoc in Hr. apply app_inj_tail in Hr as [H _].
+      right. exists l'. rewrite H. now rewrite <- app_assoc.
+  - intros [->|[r ->]].
+    + exists []. now rewrite app_nil_r.
+    + exists (r ++ [c]). rewrite <- !app_assoc. reflexivity.
+Qed.
+
+Lemma prefix_matches_nonroot path p : has_suffix p [slash] = false ->
+  prefix_matches path p = true <-> path = p \/ exists r, path = p ++ slash :: r.
+Proof.
+  intros Hp. unfold prefix_matches. rewrite (ets_nonroot p Hp).
+  destruct (has_suffix path [slash]) eqn:E.
+  - assert (H : ensure_trailing_slash path = path)
+      by (unfold ensure_trailing_slash; now rewrite E).
+    rewrite H, has_prefix_iff. split.
+    + intros [r ->]. right. exists r. now rewrite <- app_assoc.
+    + intros [->|[r ->]]; [congruence|]. exists r. now rewrite <- app_assoc.
+  - rewrite (ets_nonroot path E). apply has_prefix_snoc.
+Qed.
+
+(** The code's test is the segment-boundary test, for every normalised prefix
+    and EVERY path (rooted or not). *)
+Lemma prefix_matches_seg path p :
+  normalised p -> prefix_matches path p = true <-> seg_match path p.
+Proof.
+  intros Hn. destruct (normalised_cases p Hn) as [->|(Hs & q & Hq & ->)].
+  - rewrite prefix_matches_root. unfold seg_match. split.
+    + intros H. left. now split.
+    + intros [[_ H]|[H|[r H]]]; [exact H| |]; right;
+        [exists []|exists (slash :: r)]; exact H.
+  - rewrite (prefix_matches_nonroot _ _ Hs). unfold seg_match. split.
+    + intros H. now right.
+    + intros [[H _]|H]; [|exact H]. inversion H; subst; congruence.
+Qed.
+
+(** For a rooted path the side condition of the "/" case is vacuous. *)
+Lemma seg_match_rooted r p :
+  seg_match (slash :: r) p <->
+  p = root_path \/ slash :: r = p \/ exists r', slash :: r = p ++ slash :: r'.
+Proof.
+  unfold seg_match. split.
+  - intros [[H _]|H]; [now left|now right].
+  - intros [H|H]; [left; split; [exact H|right; now exists r]|now right].
+Qed.
+
+(** A path that is neither empty nor rooted ("*", "foo") matches nothing; the
+    empty path matches only "/". *)
+Lemma seg_match_path_shape path p :
+  normalised p -> seg_match path p -> path = [] \/ exists r, path = slash :: r.
+Proof.
+  intros Hn [[_ H]|[H|[r H]]]; [exact H| |]; right;
+    destruct (normalised_cases p Hn) as [->|(_ & q & _ & ->)]; subst; unfold root_path; cbn; eauto.
+Qed.
+
+Lemma seg_match_empty_path p : normalised p -> seg_match [] p <-> p = root_path.
+Proof.
+  intros Hn. split.
+  - intros [[H _]|[H|[r H]]]; [exact H| |].
+    + destruct (normalised_cases p Hn) as [->|(_ & q & _ & ->)]; [reflexivity|discriminate].
+    + destruct p; discriminate.
+  - intros ->. left. split; [reflexivity|now left].
+Qed.
+
+(** Trailing slashes: a path and the same path with one "/" appended (when it
+    had none) are matched identically, by any prefix. *)
+Lemma prefix_matches_ets path p :
+  prefix_matches (ensure_trailing_slash path) p = prefix_matches path p.
+Proof. unfold prefix_matches. now rewrite ets_idem. Qed.
+
+Lemma prefix_matches_trailing_slash path p :
+  has_suffix path [slash] = false ->
+  prefix_matches (path ++ [slash]) p = prefix_matches path p.
+Proof. intros H. rewrite <- (ets_nonroot path H). apply prefix_matches_ets. Qed.
+
+(** Key lemma: two normalised prefixes of equal length matching one path are equal. *)
+Lemma match_same_length path p1 p2 :
+  normalised p1 -> normalised p2 ->
+  prefix_matches path p1 = true -> prefix_matches path p2 = true ->
+  length p1 = length p2 -> p1 = p2.
+Proof.
+  intros N1 N2 M1 M2 L.
+  destruct (normalised_cases p1 N1) as [->|(S1 & q1 & Q1 & E1)];
+  destruct (normalised_cases p2 N2) as [->|(S2 & q2 & Q2 & E2)].
+  - reflexivity.
+  - subst. cbn in L. destruct q2; [congruence|discriminate].
+  - subst. cbn in L. destruct q1; [congruence|discriminate].
+  - unfold prefix_matches in *.
+    rewrite (ets_nonroot _ S1) in M1. rewrite (ets_nonroot _ S2) in M2.
+    apply has_prefix_iff in M1 as [r1 H1]. apply has_prefix_iff in M2 as [r2 H2].
+    rewrite H1 in H2. apply app_eq_length in H2.
+    + now apply app_inj_tail in H2 as [H _].
+    + rewrite !app_length. cbn. lia.
+Qed.
+
+(** * Part 3: tables *)
+
+(** [binds t h p n]: service [n] of table [t] lists host [h] and prefix [p]. *)
+Definition binds (t : table) (h p n : str) : Prop :=
+  exists s, In s t /\ bi_name s = n /\ In h (bi_hosts s) /\ In p (bi_prefixes s).
+
+Lemma in_triples t h p n : In (h, p, n) (triples t) <-> binds t h p n.
+Proof.
+  unfold triples, binds. rewrite in_flat_map. split.
+  - intros (s & Hs & H). apply in_flat_map in H as (h' & Hh & H).
+    apply in_map_iff in H as (p' & E & Hp). inversion E; subst. exists s. auto.
+  - intros (s & Hs & <- & Hh & Hp). exists s. split; [exact Hs|].
+    apply in_flat_map. exists h. split; [exact Hh|]. apply in_map_iff. exists p. auto.
+Qed.
+
+Lemma in_bindings_for t h p n : In (p, n) (bindings_for t h) <-> binds t h p n.
+Proof.
+  unfold bindings_for, binds. rewrite in_flat_map. split.
+  - intros (s & Hs & H). apply in_flat_map in H as (h' & Hh & H).
+    destruct (str_eqb h' h) eqn:E; [|destruct H]. apply str_eqb_eq in E; subst.
+    apply in_map_iff in H as (p' & E & Hp). inversion E; subst. exists s; auto.
+  - intros (s & Hs & <- & Hh & Hp). exists s. split; [exact Hs|].
+    apply in_flat_map. exists h. split; [exact Hh|]. rewrite str_eqb_refl.
+    apply in_map_iff. exists p; auto.
+Qed.
+
+Definition lists_host (t : table) (h : str) : Prop := exists s, In s t /\ In h (bi_hosts s).
+
+Lemma host_bound_iff t h : host_bound t h = true <-> lists_host t h.
+Proof.
+  unfold host_bound, lists_host. rewrite existsb_exists.
+  split; intros (s & Hs & H); exists s; (split; [exact Hs|]); now apply mem_str_In.
+Qed.
+
+(** Unique ownership, as a proposition. *)
+Definition owned_once (t : table) : Prop :=
+  forall h p n1 n2, binds t h p n1 -> binds t h p n2 -> n1 = n2.
+
+Lemma pair_owned_once_iff t : pair_owned_once t = true <-> owned_once t.
+Proof.
+  unfold pair_owned_once, owned_once. rewrite forallb_forall. split.
+  - intros H h p n1 n2 B1 B2. apply in_triples in B1, B2.
+    specialize (H _ B1). rewrite forallb_forall in H. specialize (H _ B2). cbn in H.
+    rewrite !str_eqb_refl in H. cbn in H. now apply str_eqb_eq.
+  - intros H [[h1 p1] n1] I1. apply forallb_forall. intros [[h2 p2] n2] I2.
+    destruct (str_eqb h1 h2 && str_eqb p1 p2) eqn:E; [|reflexivity]. cbn.
+    apply andb_true_iff in E as [E1 E2]. apply str_eqb_eq in E1, E2. subst.
+    apply str_eqb_eq. apply in_triples in I1, I2. eapply H; eauto.
+Qed.
+
+Definition norm_table (t : table) : Prop :=
+  forall s p, In s t -> In p (bi_prefixes s) -> normalised p.
+
+Lemma binds_normalised t h p n : norm_table t -> binds t h p n -> normalised p.
+Proof. intros Hn (s & Hs & _ & _ & Hp). eapply Hn; eauto. Qed.
+
+(** ** Host level *)
+
+(** "*" + the host from its first '.', when that '.' is not the first byte. *)
+Definition wildcard_of (host w : str) : Prop :=
+  exists a b, host = a ++ dot :: b /\ a <> [] /\ ~ In dot a /\ w = star :: dot :: b.
+
+Lemma skipn_length_app {A} (a b : list A) : skipn (length a) (a ++ b) = b.
+Proof. induction a as [|x a IH]; [reflexivity|exact IH]. Qed.
+
+Lemma firstn_length_app {A} (a b : list A) : firstn (length a) (a ++ b) = a.
+Proof. induction a as [|x a IH]; [reflexivity|cbn; now rewrite IH]. Qed.
+
+Lemma wildcard_key_iff host w : wildcard_key host = Some w <-> wildcard_of host w.
+Proof.
+  unfold wildcard_key, wildcard_of. split.
+  - destruct (index_byte host dot) as [[|n]|] eqn:E; try discriminate.
+    intros H; injection H as <-.
+    apply index_byte_some in E as (a & b & -> & Hn & Hl). exists a, b. repeat split; auto.
+    + intros ->; discriminate.
+    + change (star :: skipn (S n) (a ++ dot :: b) = star :: dot :: b).
+      rewrite <- Hl. now rewrite skipn_length_app.
+  - intros (a & b & -> & Ha & Hn & ->). rewrite (index_byte_app a dot b Hn).
+    destruct a as [|x a]; [congruence|]. cbn [length].
+    change (S (length a)) with (length (x :: a)). now rewrite skipn_length_app.
+Qed.
+
+(** The level at which a host key is looked up. *)
+Definition level_of (t : table) (host l : str) : Prop :=
+  (lists_host t host /\ l = host) \/
+  (~ lists_host t host /\ exists w, wildcard_of host w /\ lists_host t w /\ l = w) \/
+  (~ lists_host t host /\ (forall w, wildcard_of host w -> ~ lists_host t w) /\ l = []).
+
+Lemma host_level_spec t host : level_of t host (host_level t host).
+Proof.
+  unfold level_of, host_level. destruct (host_bound t host) eqn:E.
+  - left. split; [now apply host_bound_iff|reflexivity].
+  - assert (Hn : ~ lists_host t host) by (intros H; apply host_bound_iff in H; congruence).
+    right. destruct (wildcard_key host) as [w|] eqn:Ew.
+    + destruct (host_bound t w) eqn:Eb.
+      * left. split; [exact Hn|]. exists w. split; [now apply wildcard_key_iff|].
+        split; [now apply host_bound_iff|reflexivity].
+      * right. split; [exact Hn|]. split; [|reflexivity]. intros w' Hw' Hl.
+        apply wildcard_key_iff in Hw'. rewrite Ew in Hw'. inversion Hw'; subst.
+        apply host_bound_iff in Hl. congruence.
+    + right. split; [exact Hn|]. split; [|reflexivity]. intros w' Hw' _.
+      apply wildcard_key_iff in Hw'. congruence.
+Qed.
+
+Lemma level_of_fun t host l1 l2 : level_of t host l1 -> level_of t host l2 -> l1 = l2.
+Proof.
+  intros [[A1 ->]|[(A1 & w1 & W1 & L1 & ->)|(A1 & F1 & ->)]]
+         [[A2 ->]|[(A2 & w2 & W2 & L2 & ->)|(A2 & F2 & ->)]];
+    try reflexivity; try contradiction.
+  - apply wildcard_key_iff in W1, W2. congruence.
+  - exfalso. eapply F2; eauto.
+  - exfalso. eapply F1; eauto.
+Qed.
+
+Lemma level_of_iff t host l : level_of t host l <-> l = host_level t host.
+Proof.
+  split.
+  - intros H. eapply level_of_fun; [exact H|apply host_level_spec].
+  - intros ->. apply host_level_spec.
+Qed.
+
+(** * Part 4: routing *)
+
+(** A binding of level [l] that matches [path]. *)
+Definition candidate (t : table) (l path p n : str) : Prop :=
+  binds t l p n /\ seg_match path p.
+
+(** Declarative routing: [Some (owner, prefix)] or [None] (404). *)
+Definition route_spec (t : table) (host path : str) (r : option (str * str)) : Prop :=
+  exists l, level_of t host l /\
+  match r with
+  | Some (n, p) => candidate t l path p n /\
+                   forall p' n', candidate t l path p' n' -> length p' <= length p
+  | None => forall p n, ~ candidate t l path p n
+  end.
+
+Lemma candidate_iff t l path p n : norm_table t ->
+  candidate t l path p n <-> In (p, n) (bindings_for t l) /\ prefix_matches path p = true.
+Proof.
+  intros Hn. unfold candidate. rewrite in_bindings_for. split; intros [B M]; (split; [exact B|]);
+    apply (prefix_matches_seg path p (binds_normalised _ _ _ _ Hn B)); exact M.
+Qed.
+
+Lemma best_match_spec path : forall bs best,
+  match best_match path bs best with
+  | Some (p, n) =>
+      ((In (p, n) bs /\ prefix_matches path p = true) \/ best = Some (p, n)) /\
+      (forall p' n', In (p', n') bs -> prefix_matches path p' = true -> length p' <= length p) /\
+      (forall bp bn, best = Some (bp, bn) -> length bp <= length p)
+  | None => best = None /\ forall p' n', In (p', n') bs -> prefix_matches path p' = false
+  end.
+Proof.
+  induction bs as [|[p n] r IH]; intros best; cbn [best_match].
+  - destruct best as [[bp bn]|].
+    + split; [now right|]. split; [intros p' n' []|]. intros bp' bn' H. inversion H; subst. lia.
+    + split; [reflexivity|intros p' n' []].
+  - destruct (prefix_matches path p) eqn:E.
+    + destruct best as [[bp bn]|].
+      * destruct (Nat.ltb (length bp) (length p)) eqn:El.
+        -- specialize (IH (Some (p, n))). destruct (best_match path r (Some (p, n))) as [[p0 n0]|].
+           ++ destruct IH as (I & Mx & Mb). specialize (Mb p n eq_refl). split; [|split].
+              ** destruct I as [[I M]|I]; [left; split; [now right|exact M]|].
+                 inversion I; subst. left. split; [now left|exact E].
+              ** intros p' n' [H|H] Hm; [inversion H; subst; exact Mb|eauto].
+              ** intros bp' bn' H. inversion H; subst. lia.
+           ++ destruct IH as [IH _]. discriminate.
+        -- specialize (IH (Some (bp, bn))).
+           destruct (best_match path r (Some (bp, bn))) as [[p0 n0]|].
+           ++ destruct IH as (I & Mx & Mb). specialize (Mb bp bn eq_refl). split; [|split].
+              ** destruct I as [[I M]|I]; [left; split; [now right|exact M]|now right].
+              ** intros p' n' [H|H] Hm; [inversion H; subst; lia|eauto].
+              ** intros bp' bn' H. inversion H; subst. exact Mb.
+           ++ destruct IH as [IH _]. discriminate.
+      * specialize (IH (Some (p, n))). destruct (best_match path r (Some (p, n))) as [[p0 n0]|].
+        -- destruct IH as (I & Mx & Mb). specialize (Mb p n eq_refl). split; [|split].
+           ++ destruct I as [[I M]|I]; [left; split; [now right|exact M]|].
+              inversion I; subst. left. split; [now left|exact E].
+           ++ intros p' n' [H|H] Hm; [inversion H; subst; exact Mb|eauto].
+           ++ intros bp' bn' H. discriminate.
+        -- destruct IH as [IH _]. discriminate.
+    + specialize (IH best). destruct (best_match path r best) as [[p0 n0]|].
+      * destruct IH as (I & Mx & Mb). split; [|split].
+        -- destruct I as [[I M]|I]; [left; split; [now right|exact M]|now right].
+        -- intros p' n' [H|H] Hm; [inversion H; subst; congruence|eauto].
+        -- exact Mb.
+      * destruct IH as [IH Hf]. split; [exact IH|].
+        intros p' n' [H|H]; [inversion H; subst; exact E|eauto].
+Qed.
+
+(** [service_for] meets the declarative specification (no ownership needed). *)
+Lemma service_for_spec t host path :
+  norm_table t -> route_spec t host path (service_for t host path).
+Proof.
+  intros Hn. exists (host_level t host). split; [apply host_level_spec|].
+  unfold service_for.
+  pose proof (best_match_spec path (bindings_for t (host_level t host)) None) as H.
+  destruct (best_match path (bindings_for t (host_level t host)) None) as [[p n]|].
+  - destruct H as ([[Hi Hm]|Hb] & Hmax & _); [|discriminate]. split.
+    + apply candidate_iff; auto.
+    + intros p' n' Hc. apply candidate_iff in Hc as [Hi' Hm']; eauto.
+  - destruct H as [_ H]. intros p n Hc. apply candidate_iff in Hc as [Hi Hm]; [|exact Hn].
+    rewrite (H _ _ Hi) in Hm. discriminate.
+Qed.
+
+(** The specification determines the answer, under unique ownership. *)
+Lemma route_spec_unique t host path r1 r2 :
+  owned_once t -> norm_table t ->
+  route_spec t host path r1 -> route_spec t host path r2 -> r1 = r2.
+Proof.
+  intros Ho Hn (l1 & L1 & H1) (l2 & L2 & H2).
+  assert (El : l2 = l1) by eauto using level_of_fun. subst l2.
+  destruct r1 as [[n1 p1]|], r2 as [[n2 p2]|].
+  - destruct H1 as [C1 M1], H2 as [C2 M2].
+    assert (L : length p1 = length p2) by (apply Nat.le_antisymm; eauto).
+    assert (Ep : p1 = p2).
+    { apply candidate_iff in C1 as [B1 S1]; [|exact Hn].
+      apply candidate_iff in C2 as [B2 S2]; [|exact Hn].
+      apply in_bindings_for in B1, B2.
+      eapply match_same_length; eauto using binds_normalised. }
+    subst. destruct C1 as [B1 _], C2 as [B2 _]. f_equal. f_equal. eapply Ho; eauto.
+  - exfalso. destruct H1 as [C1 _]. eapply H2; eauto.
+  - exfalso. destruct H2 as [C2 _]. eapply H1; eauto.
+  - reflexivity.
+Qed.
+
+(** Two matching bindings of equal prefix length at one level coincide. *)
+Lemma candidate_tie t l path p1 n1 p2 n2 :
+  owned_once t -> norm_table t ->
+  candidate t l path p1 n1 -> candidate t l path p2 n2 -> length p1 = length p2 ->
+  p1 = p2 /\ n1 = n2.
+Proof.
+  intros Ho Hn C1 C2 L.
+  assert (Ep : p1 = p2).
+  { apply candidate_iff in C1 as [B1 S1]; [|exact Hn].
+    apply candidate_iff in C2 as [B2 S2]; [|exact Hn].
+    apply in_bindings_for in B1, B2. eapply match_same_length; eauto using binds_normalised. }
+  subst. split; [reflexivity|]. destruct C1 as [B1 _], C2 as [B2 _]. eapply Ho; eauto.
+Qed.
+
+Lemma service_for_none_iff t host path : norm_table t ->
+  service_for t host path = None <->
+  forall l, level_of t host l -> forall p n, ~ candidate t l path p n.
+Proof.
+  intros Hn. pose proof (service_for_spec t host path Hn) as (l & L & H). split.
+  - intros E l' L' p n. rewrite E in H. rewrite (level_of_fun _ _ _ _ L' L). apply H.
+  - intros Hno. destruct (service_for t host path) as [[n p]|]; [|reflexivity].
+    exfalso. destruct H as [C _]. eapply Hno; eauto.
+Qed.
+
+(** ** The code's literal algorithm *)
+
+Definition longer_first (a b : str * str) : Prop := length (fst b) <= length (fst a).
+
+(** Sorted by descending prefix length; ties in any order. *)
+Definition desc_sorted (bs : list (str * str)) : Prop := Sorted longer_first bs.
+
+Lemma longer_first_trans : Relations_1.Transitive longer_first.
+Proof. intros a b c. unfold longer_first. lia. Qed.
+
+Lemma first_match_spec path : forall bs, StronglySorted longer_first bs ->
+  match first_match path bs with
+  | Some (n, p) => In (p, n) bs /\ prefix_matches path p = true /\
+      forall p' n', In (p', n') bs -> prefix_matches path p' = true -> length p' <= length p
+  | None => forall p' n', In (p', n') bs -> prefix_matches path p' = false
+  end.
+Proof.
+  induction bs as [|[p n] r IH]; intros Hs; cbn [first_match].
+  - intros p' n' [].
+  - apply StronglySorted_inv in Hs as [Hs Hf]. destruct (prefix_matches path p) eqn:E.
+    + split; [now left|]. split; [exact E|]. intros p' n' [H|H] _.
+      * inversion H; subst; lia.
+      * rewrite Forall_forall in Hf. apply (Hf _ H).
+    + specialize (IH Hs). destruct (first_match path r) as [[n0 p0]|].
+      * destruct IH as (I & M & Mx). split; [now right|]. split; [exact M|].
+        intros p' n' [H|H] Hm; [inversion H; subst; congruence|eauto].
+      * intros p' n' [H|H]; [inversion H; subst; exact E|eauto].
+Qed.
+
+Lemma first_match_route_spec t host path bs :
+  norm_table t ->
+  Permutation bs (bindings_for t (host_level t host)) -> desc_sorted bs ->
+  route_spec t host path (first_match path bs).
+Proof.
+  intros Hn Hp Hs. exists (host_level t host). split; [apply host_level_spec|].
+  apply (Sorted_StronglySorted longer_first_trans) in Hs.
+  pose proof (first_match_spec path bs Hs) as H.
+  assert (Hin : forall x, In x bs <-> In x (bindings_for t (host_level t host))).
+  { intros x. split; apply Permutation_in; [exact Hp|now apply Permutation_sym]. }
+  destruct (first_match path bs) as [[n p]|].
+  - destruct H as (I & M & Mx). split.
+    + apply candidate_iff; [exact Hn|]. split; [now apply Hin|exact M].
+    + intros p' n' Hc. apply candidate_iff in Hc as [I' M']; [|exact Hn].
+      apply Hin in I'. eauto.
+  - intros p n Hc. apply candidate_iff in Hc as [I' M']; [|exact Hn].
+    apply Hin in I'. rewrite (H _ _ I') in M'. discriminate.
+Qed.
+
+Lemma first_match_service_for t host path bs :
+  owned_once t -> norm_table t ->
+  Permutation bs (bindings_for t (host_level t host)) -> desc_sorted bs ->
+  first_match path bs = service_for t host path.
+Proof.
+  intros Ho Hn Hp Hs. apply (route_spec_unique t host path _ _ Ho Hn).
+  - now apply first_match_route_spec.
+  - now apply service_for_spec.
+Qed.
+
+(** ** Independence of the table order *)
+
+Definition same_services (t1 t2 : table) : Prop := forall s, In s t1 <-> In s t2.
+
+Lemma binds_ext t1 t2 h p n : same_services t1 t2 -> binds t1 h p n -> binds t2 h p n.
+Proof. intros E (s & Hs & H). exists s. split; [now apply E|exact H]. Qed.
+
+Lemma lists_host_ext t1 t2 h : same_services t1 t2 -> lists_host t1 h -> lists_host t2 h.
+Proof. intros E (s & Hs & H). exists s. split; [now apply E|exact H]. Qed.
+
+Lemma same_services_sym t1 t2 : same_services t1 t2 -> same_services t2 t1.
+Proof. intros E s. symmetry. apply E. Qed.
+
+Lemma level_of_ext t1 t2 host l : same_services t1 t2 -> level_of t1 host l -> level_of t2 host l.
+Proof.
+  intros E. pose proof (same_services_sym _ _ E) as E'.
+  intros [[A ->]|[(A & w & W & L & ->)|(A & F & ->)]].
+  - left. split; [eauto using lists_host_ext|reflexivity].
+  - right; left. split; [intros H; apply A; eauto using lists_host_ext|].
+    exists w. split; [exact W|]. split; [eauto using lists_host_ext|reflexivity].
+  - right; right. split; [intros H; apply A; eauto using lists_host_ext|]. split; [|reflexivity].
+    intros w W H. apply (F w W). eauto using lists_host_ext.
+Qed.
+
+Lemma route_spec_ext t1 t2 host path r :
+  same_services t1 t2 -> route_spec t1 host path r -> route_spec t2 host path r.
+Proof.
+  intros E (l & L & H). pose proof (same_services_sym _ _ E) as E'.
+  exists l. split; [eauto using level_of_ext|].
+  destruct r as [[n p]|].
+  - destruct H as [[B S] M]. split; [split; eauto using binds_ext|].
+    intros p' n' [B' S']. apply (M p' n'). split; eauto using binds_ext.
+  - intros p n [B S]. apply (H p n). split; eauto using binds_ext.
+Qed.
+
+Lemma norm_table_ext t1 t2 : same_services t1 t2 -> norm_table t1 -> norm_table t2.
+Proof. intros E H s p Hs Hp. apply (H s p); [now apply E|exact Hp]. Qed.
+
+Lemma owned_once_ext t1 t2 : same_services t1 t2 -> owned_once t1 -> owned_once t2.
+Proof.
+  intros E H h p n1 n2 B1 B2. apply same_services_sym in E.
+  eapply H; eauto using binds_ext.
+Qed.
+
+Lemma service_for_ext t1 t2 host path :
+  same_services t1 t2 -> owned_once t1 -> norm_table t1 ->
+  service_for t1 host path = service_for t2 host path.
+Proof.
+  intros E Ho Hn. apply (route_spec_unique t1 host path _ _ Ho Hn).
+  - now apply service_for_spec.
+  - apply (route_spec_ext t2 t1); [now apply same_services_sym|].
+    apply service_for_spec. eauto using norm_table_ext.
+Qed.
+
+Lemma Permutation_same_services t1 t2 : Permutation t1 t2 -> same_services t1 t2.
+Proof. intros P s. split; apply Permutation_in; [exact P|now apply Permutation_sym]. Qed.
+
+(** * Part 5: the host key (port stripping) *)
+
+Lemma split_host_port_plain hp : hd_error hp <> Some x5b ->
+  split_host_port hp =
+  match last_index_byte hp colon with
+  | None => None
+  | Some i =>
+    let host := firstn i hp in
+    if contains_byte host colon then None
+    else if contains_byte hp x5b || contains_byte hp x5d then None else Some host
+  end.
+Proof.
+  intros H. unfold split_host_port. destruct (last_index_byte hp colon) as [i|]; [|reflexivity].
+  destruct hp as [|b r]; [reflexivity|]. destruct b; try reflexivity. exfalso; apply H; reflexivity.
+Qed.
+
+Lemma split_host_port_bracket r :
+  split_host_port (x5b :: r) =
+  match last_index_byte (x5b :: r) colon with
+  | None => None
+  | Some i =>
+    match index_byte (x5b :: r) x5d with
+    | None => None
+    | Some e =>
+      if Nat.eqb (S e) i then
+        if contains_byte (skipn 1 (x5b :: r)) x5b || contains_byte (skipn (S e) (x5b :: r)) x5d
+        then None else Some (firstn (e - 1) (skipn 1 (x5b :: r)))
+      else None
+    end
+  end.
+Proof. reflexivity. Qed.
+
+(** Bytes that may not occur in a plain host or in a port. *)
+Definition plain (s : str) : Prop := ~ In colon s /\ ~ In x5b s /\ ~ In x5d s.
+
+Lemma split_host_port_host_port h port :
+  h <> [] -> plain h -> plain port -> split_host_port (h ++ colon :: port) = Some h.
+Proof.
+  intros Hne (Hc & Hl & Hr) (Pc & Pl & Pr).
+  rewrite split_host_port_plain.
+  - rewrite (last_index_byte_app h colon port Pc). cbn zeta.
+    rewrite firstn_length_app.
+    assert (E1 : contains_byte h colon = false) by now apply contains_byte_false.
+    assert (E2 : contains_byte (h ++ colon :: port) x5b = false).
+    { apply contains_byte_false. intros H. apply in_app_or in H as [H|[H|H]]; auto. discriminate. }
+    assert (E3 : contains_byte (h ++ colon :: port) x5d = false).
+    { apply contains_byte_false. intros H. apply in_app_or in H as [H|[H|H]]; auto. discriminate. }
+    now rewrite E1, E2, E3.
+  - destruct h as [|b h]; [congruence|]. cbn. intros H. inversion H; subst. apply Hl. now left.
+Qed.
+
+(** host:port -> host *)
+Lemma request_host_key_port h port :
+  h <> [] -> plain h -> plain port -> request_host_key (h ++ colon :: port) = h.
+Proof.
+  intros Hne Hh Hp. unfold request_host_key.
+  rewrite (index_byte_app h colon port (proj1 Hh)).
+  rewrite (split_host_port_host_port h port Hne Hh Hp).
+  destruct h; [congruence|reflexivity].
+Qed.
+
+(** no colon -> unchanged *)
+Lemma request_host_key_no_colon h : ~ In colon h -> request_host_key h = h.
+Proof.
+  intros H. unfold request_host_key. apply index_byte_none in H. now rewrite H.
+Qed.
+
+(** leading colon (":80") -> unchanged: [strings.Index(host, ":") > 0] fails *)
+Lemma request_host_key_leading_colon r : request_host_key (colon :: r) = colon :: r.
+Proof. reflexivity. Qed.
+
+Lemma digits_plain port : forallb is_digit port = true -> plain port.
+Proof.
+  intros H. rewrite forallb_forall in H.
+  repeat split; intros Hi; apply H in Hi; vm_compute in Hi; discriminate.
+Qed.
+
+Lemma last_index_aux_bound : forall s c k acc i,
+  last_index_byte_aux s c k acc = Some i -> acc = Some i \/ (k <= i < k + length s).
+Proof.
+  induction s as [|x s IH]; intros c k acc i H; cbn in H.
+  - now left.
+  - apply IH in H as [H|H].
+    + destruct (byte_eqb x c); [|now left]. inversion H; subst. right. cbn. lia.
+    + right. cbn. lia.
+Qed.
+
+Lemma last_index_byte_bound s c i : last_index_byte s c = Some i -> i < length s.
+Proof.
+  intros H. apply last_index_aux_bound in H as [H|H]; [discriminate|lia].
+Qed.
+
+Lemma index_byte_S x r c : x <> c -> In c r -> exists k, index_byte (x :: r) c = Some (S k).
+Proof.
+  intros Hx Hi. cbn. apply byte_eqb_neq in Hx. rewrite Hx.
+  destruct (index_byte r c) as [n|] eqn:E; [now exists n|].
+  apply index_byte_none in E. contradiction.
+Qed.
+
+(** [a]:port -> a  (brackets removed) *)
+Lemma request_host_key_bracket_port a port :
+  ~ In x5b a -> ~ In x5d a -> plain port ->
+  request_host_key (x5b :: a ++ x5d :: colon :: port) = a.
+Proof.
+  intros Hl Hr (Pc & Pl & Pr). unfold request_host_key.
+  destruct (index_byte_S x5b (a ++ x5d :: colon :: port) colon) as [k ->]; [discriminate| |].
+  { apply in_or_app. right. right. now left. }
+  rewrite split_host_port_bracket.
+  replace (x5b :: a ++ x5d :: colon :: port) with ((x5b :: a ++ [x5d]) ++ colon :: port)
+    by (cbn; now rewrite <- app_assoc).
+  rewrite (last_index_byte_app _ colon port Pc).
+  replace ((x5b :: a ++ [x5d]) ++ colon :: port) with ((x5b :: a) ++ x5d :: colon :: port)
+    by (cbn; now rewrite <- app_assoc).
+  rewrite index_byte_app.
+  2:{ intros [H|H]; [discriminate|contradiction]. }
+  assert (E : Nat.eqb (S (length (x5b :: a))) (length (x5b :: a ++ [x5d])) = true).
+  { apply Nat.eqb_eq. cbn. rewrite app_length. cbn. lia. }
+  rewrite E.
+  change (skipn 1 ((x5b :: a) ++ x5d :: colon :: port)) with (a ++ x5d :: colon :: port).
+  assert (Es : skipn (S (length (x5b :: a))) ((x5b :: a) ++ x5d :: colon :: port) = colon :: port).
+  { replace ((x5b :: a) ++ x5d :: colon :: port) with (((x5b :: a) ++ [x5d]) ++ colon :: port)
+      by (now rewrite <- app_assoc).
+    replace (S (length (x5b :: a))) with (length ((x5b :: a) ++ [x5d]))
+      by (rewrite app_length; cbn; lia).
+    apply skipn_length_app. }
+  rewrite Es.
+  assert (E1 : contains_byte (a ++ x5d :: colon :: port) x5b = false).
+  { apply contains_byte_false. intros H. apply in_app_or in H as [H|[H|[H|H]]]; auto; discriminate. }
+  assert (E2 : contains_byte (colon :: port) x5d = false).
+  { apply contains_byte_false. intros [H|H]; [discriminate|auto]. }
+  rewrite E1, E2. cbn [orb length]. rewrite Nat.sub_succ, Nat.sub_0_r.
+  now rewrite firstn_length_app.
+Qed.
+
+(** [a] without a port keeps its brackets, whatever [a] is. *)
+Lemma request_host_key_bracket_no_port a :
+  ~ In x5d a -> request_host_key (x5b :: a ++ [x5d]) = x5b :: a ++ [x5d].
+Proof.
+  intros Hr. unfold request_host_key.
+  destruct (index_byte (x5b :: a ++ [x5d]) colon) as [[|k]|]; try reflexivity.
+  rewrite split_host_port_bracket.
+  destruct (last_index_byte (x5b :: a ++ [x5d]) colon) as [i|] eqn:Ei; [|reflexivity].
+  apply last_index_byte_bound in Ei.
+  change (x5b :: a ++ [x5d]) with ((x5b :: a) ++ [x5d]) at 1.
+  rewrite index_byte_app.
+  2:{ intros [H|H]; [discriminate|contradiction]. }
+  assert (E : Nat.eqb (S (length (x5b :: a))) i = false).
+  { apply Nat.eqb_neq. cbn in *. rewrite app_length in Ei. cbn in Ei. lia. }
+  now rewrite E.
+Qed.
+
+(** * Part 6: ownership under Set / Remove / CheckAvailability *)
+
+Lemma in_tbl_remove t n s : In s (tbl_remove t n) <-> In s t /\ bi_name s <> n.
+Proof.
+  induction t as [|x t IH]; cbn.
+  - tauto.
+  - destruct (str_eqb (bi_name x) n) eqn:E.
+    + apply str_eqb_eq in E. rewrite IH. split.
+      * intros [H1 H2]. auto.
+      * intros [[H1|H1] H2]; [subst; contradiction|auto].
+    + apply str_eqb_neq in E. cbn. rewrite IH. split.
+      * intros [H|[H1 H2]]; [subst; auto|auto].
+      * intros [[H1|H1] H2]; auto.
+Qed.
+
+Lemma binds_tbl_remove t name h p n :
+  binds (tbl_remove t name) h p n <-> binds t h p n /\ n <> name.
+Proof.
+  unfold binds. split.
+  - intros (s & Hs & Hn & H). apply in_tbl_remove in Hs as [Hs Hne]. split; [exists s; auto|congruence].
+  - intros [(s & Hs & Hn & H) Hne]. exists s. split; [|auto]. apply in_tbl_remove. split; [exact Hs|congruence].
+Qed.
+
+Lemma binds_app t1 t2 h p n : binds (t1 ++ t2) h p n <-> binds t1 h p n \/ binds t2 h p n.
+Proof.
+  unfold binds. split.
+  - intros (s & Hs & H). apply in_app_or in Hs as [Hs|Hs]; [left|right]; exists s; auto.
+  - intros [(s & Hs & H)|(s & Hs & H)]; exists s; (split; [apply in_or_app; auto|exact H]).
+Qed.
+
+Lemma binds_single b h p n :
+  binds [b] h p n <-> n = bi_name b /\ In h (bi_hosts b) /\ In p (bi_prefixes b).
+Proof.
+  unfold binds. split.
+  - intros (s & [<-|[]] & <- & H). auto.
+  - intros (-> & H). exists b. split; [now left|auto].
+Qed.
+
+Lemma binds_tbl_set t b h p n :
+  binds (tbl_set t b) h p n <->
+  (n = bi_name b /\ In h (bi_hosts b) /\ In p (bi_prefixes b)) \/
+  (n <> bi_name b /\ binds t h p n).
+Proof.
+  unfold tbl_set. rewrite binds_app, binds_tbl_remove, binds_single. tauto.
+Qed.
+
+Lemma conflicts_iff t name hs ps :
+  conflicts t name hs ps = true <->
+  exists h p n, In h hs /\ In p ps /\ binds t h p n /\ n <> name.
+Proof.
+  unfold conflicts. rewrite existsb_exists. split.
+  - intros (h & Hh & H). apply existsb_exists in H as (p & Hp & H).
+    apply existsb_exists in H as ([p' n] & Hb & H). cbn in H.
+    apply andb_true_iff in H as [E1 E2]. apply str_eqb_eq in E1. subst p'.
+    apply negb_true_iff in E2. apply str_eqb_neq in E2.
+    exists h, p, n. repeat split; auto. now apply in_bindings_for.
+  - intros (h & p & n & Hh & Hp & B & Hne). exists h. split; [exact Hh|].
+    apply existsb_exists. exists p. split; [exact Hp|].
+    apply existsb_exists. exists (p, n). split; [now apply in_bindings_for|].
+    cbn. rewrite str_eqb_refl. cbn. apply negb_true_iff. now apply str_eqb_neq.
+Qed.
+
+Lemma conflicts_false_iff t name hs ps :
+  conflicts t name hs ps = false <->
+  forall h p n, In h hs -> In p ps -> binds t h p n -> n = name.
+Proof.
+  split.
+  - intros E h p n Hh Hp B. destruct (str_eq_dec n name) as [H|H]; [exact H|].
+    assert (C : conflicts t name hs ps = true) by (apply conflicts_iff; exists h, p, n; auto).
+    congruence.
+  - intros H. destruct (conflicts t name hs ps) eqn:E; [|reflexivity].
+    apply conflicts_iff in E as (h & p & n & Hh & Hp & B & Hne). exfalso. eauto.
+Qed.
+
+(** ** Well-formed tables *)
+
+Definition wf_bi (b : binding_info) : Prop :=
+  bi_hosts b <> [] /\ bi_prefixes b <> [] /\ Forall normalised (bi_prefixes b).
+
+Definition tbl_ok (t : table) : Prop :=
+  owned_once t /\ NoDup (map bi_name t) /\ Forall wf_bi t.
+
+Lemma tbl_ok_norm t : tbl_ok t -> norm_table t.
+Proof.
+  intros (_ & _ & Hw) s p Hs Hp. rewrite Forall_forall in Hw.
+  destruct (Hw s Hs) as (_ & _ & Hf). rewrite Forall_forall in Hf. auto.
+Qed.
+
+Lemma tbl_ok_nil : tbl_ok [].
+Proof.
+  split; [|split]; [|constructor|constructor].
+  intros h p n1 n2 (s & [] & _).
+Qed.
+
+Lemma names_tbl_remove_notin t n : ~ In n (map bi_name (tbl_remove t n)).
+Proof.
+  intros H. apply in_map_iff in H as (s & E & Hs). apply in_tbl_remove in Hs as [_ Hne]. congruence.
+Qed.
+
+Lemma names_tbl_remove_nodup t n : NoDup (map bi_name t) -> NoDup (map bi_name (tbl_remove t n)).
+Proof.
+  induction t as [|x t IH]; cbn; intros H; [constructor|].
+  inversion H as [|? ? Hn Hd]; subst. destruct (str_eqb (bi_name x) n); [auto|].
+  cbn. constructor; [|auto]. intros Hi. apply Hn.
+  apply in_map_iff in Hi as (s & E & Hs). apply in_tbl_remove in Hs as [Hs _].
+  apply in_map_iff. exists s. auto.
+Qed.
+
+Lemma NoDup_snoc {A} (l : list A) x : NoDup l -> ~ In x l -> NoDup (l ++ [x]).
+Proof.
+  intros Hd Hn. apply (NoDup_Add (a := x) (l := l)).
+  - rewrite <- (app_nil_r l) at 1. apply Add_app.
+  - auto.
+Qed.
+
+Lemma tbl_remove_ok t n : tbl_ok t -> tbl_ok (tbl_remove t n).
+Proof.
+  intros (Ho & Hd & Hw). split; [|split].
+  - intros h p n1 n2 B1 B2. apply binds_tbl_remove in B1 as [B1 _], B2 as [B2 _]. eauto.
+  - now apply names_tbl_remove_nodup.
+  - rewrite Forall_forall in *. intros s Hs. apply in_tbl_remove in Hs as [Hs _]. auto.
+Qed.
+
+Lemma tbl_set_ok t b :
+  tbl_ok t -> wf_bi b -> conflicts t (bi_name b) (bi_hosts b) (bi_prefixes b) = false ->
+  tbl_ok (tbl_set t b).
+Proof.
+  intros (Ho & Hd & Hw) Hb Hc. rewrite conflicts_false_iff in Hc. split; [|split].
+  - intros h p n1 n2 B1 B2. apply binds_tbl_set in B1, B2.
+    destruct B1 as [(-> & Hh1 & Hp1)|[N1 B1]], B2 as [(-> & Hh2 & Hp2)|[N2 B2]].
+    + reflexivity.
+    + symmetry. eauto.
+    + eauto.
+    + eauto.
+  - unfold tbl_set. rewrite map_app. cbn. apply NoDup_snoc.
+    + now apply names_tbl_remove_nodup.
+    + apply names_tbl_remove_notin.
+  - unfold tbl_set. apply Forall_app. split; [|now constructor].
+    rewrite Forall_forall in *. intros s Hs. apply in_tbl_remove in Hs as [Hs _]. auto.
+Qed.
+
+Lemma tbl_remove_absent t n : ~ In n (map bi_name t) -> tbl_remove t n = t.
+Proof.
+  induction t as [|x t IH]; cbn; intros H; [reflexivity|].
+  destruct (str_eqb (bi_name x) n) eqn:E.
+  - apply str_eqb_eq in E. exfalso. apply H. now left.
+  - f_equal. apply IH. intros Hi. apply H. now right.
+Qed.
+
+(** ** Lists of services *)
+
+Lemma names_table_of svcs : map bi_name (table_of svcs) = map s_name svcs.
+Proof. unfold table_of. rewrite map_map. reflexivity. Qed.
+
+Lemma table_of_app a b : table_of (a ++ b) = table_of a ++ table_of b.
+Proof. apply map_app. Qed.
+
+Lemma table_of_svc_remove svcs n : table_of (svc_remove svcs n) = tbl_remove (table_of svcs) n.
+Proof.
+  unfold table_of. induction svcs as [|s r IH]; cbn; [reflexivity|].
+  destruct (str_eqb (s_name s) n); cbn; now rewrite IH.
+Qed.
+
+Lemma table_of_svc_set svcs s : table_of (svc_set svcs s) = tbl_set (table_of svcs) (bi_of s).
+Proof. unfold svc_set, tbl_set. rewrite table_of_app, table_of_svc_remove. reflexivity. Qed.
+
+(** syncTLSOptionsFromRootDomain touches TLS flags only. *)
+Lemma table_of_sync_tls svcs : table_of (sync_tls svcs) = table_of svcs.
+Proof.
+  unfold sync_tls, table_of. rewrite map_map. apply map_ext. intros s.
+  destruct (serves_root s); [reflexivity|].
+  match goal with |- context [let '(a, b) := ?X in _] => destruct X as [tls redir] end.
+  reflexivity.
+Qed.
+
+Lemma table_of_install svcs s : table_of (install svcs s) = tbl_set (table_of svcs) (bi_of s).
+Proof. unfold install. now rewrite table_of_sync_tls, table_of_svc_set. Qed.
+
+Lemma svc_get_some svcs n s : svc_get svcs n = Some s -> In s svcs /\ s_name s = n.
+Proof.
+  induction svcs as [|x r IH]; cbn; [discriminate|].
+  destruct (str_eqb (s_name x) n) eqn:E.
+  - intros H; inversion H; subst. apply str_eqb_eq in E. auto.
+  - intros H. apply IH in H as [H1 H2]. auto.
+Qed.
+
+Lemma svc_get_none svcs n : svc_get svcs n = None -> ~ In n (map s_name svcs).
+Proof.
+  induction svcs as [|x r IH]; cbn; [tauto|].
+  destruct (str_eqb (s_name x) n) eqn:E; [discriminate|].
+  apply str_eqb_neq in E. intros H [H1|H1]; [contradiction|]. now apply IH.
+Qed.
+
+Lemma map_replace_absent n s' r :
+  ~ In n (map s_name r) -> map (fun x => if str_eqb (s_name x) n then s' else x) r = r.
+Proof.
+  induction r as [|x r IH]; cbn; intros H; [reflexivity|].
+  destruct (str_eqb (s_name x) n) eqn:E.
+  - apply str_eqb_eq in E. exfalso. apply H. now left.
+  - f_equal. apply IH. intros Hi. apply H. now right.
+Qed.
+
+(** Replacing a service by one with the same name, hosts and prefixes. *)
+Lemma table_of_replace svcs name s s' :
+  NoDup (map s_name svcs) -> svc_get svcs name = Some s -> bi_of s' = bi_of s ->
+  table_of (map (fun x => if str_eqb (s_name x) (s_name s') then s' else x) svcs) = table_of svcs.
+Proof.
+  intros Hd Hg Hb. assert (En : s_name s' = s_name s) by (apply (f_equal bi_name) in Hb; exact Hb).
+  rewrite En. clear En.
+  induction svcs as [|x r IH]; [discriminate|]. cbn in Hg. inversion Hd as [|? ? Hn Hd']; subst.
+  destruct (str_eqb (s_name x) name) eqn:E.
+  - inversion Hg; subst x. cbn. rewrite str_eqb_refl. rewrite map_replace_absent by exact Hn.
+    cbn. now rewrite Hb.
+  - destruct (svc_get_some _ _ _ Hg) as [_ Es]. cbn. rewrite Es, E. cbn. f_equal.
+    rewrite <- Es. now apply IH.
+Qed.
+
+(** ** Restore *)
+
+Lemma restore_svc_bi v s s' : restore_svc v s = Some s' -> bi_of s' = bi_of s.
+Proof.
+  unfold restore_svc. destruct (init_check (s_opts s)); [discriminate|].
+  intros H; inversion H; subst. reflexivity.
+Qed.
+
+Lemma restore_all_table v : forall saved svcs,
+  restore_all v saved = Some svcs -> table_of svcs = table_of saved.
+Proof.
+  induction saved as [|s r IH]; cbn; intros svcs H.
+  - inversion H; subst. reflexivity.
+  - destruct (restore_svc v s) as [s'|] eqn:E1; [|discriminate].
+    destruct (restore_all v r) as [r'|] eqn:E2; [|discriminate].
+    inversion H; subst. change (bi_of s' :: table_of r' = bi_of s :: table_of r).
+    now rewrite (restore_svc_bi _ _ _ E1), (IH _ eq_refl).
+Qed.
+
+Lemma fold_set_table : forall svcs acc,
+  NoDup (map s_name acc ++ map s_name svcs) ->
+  table_of (fold_left (fun acc s => sync_tls (svc_set acc s)) svcs acc) = table_of acc ++ table_of svcs.
+Proof.
+  induction svcs as [|s r IH]; intros acc Hd; cbn.
+  - now rewrite app_nil_r.
+  - cbn in Hd. pose proof (NoDup_remove_2 _ _ _ Hd) as Hn.
+    assert (Et : table_of (sync_tls (svc_set acc s)) = table_of acc ++ [bi_of s]).
+    { rewrite table_of_sync_tls, table_of_svc_set. unfold tbl_set. rewrite tbl_remove_absent; [reflexivity|].
+      rewrite names_table_of. cbn. intros H. apply Hn. apply in_or_app. now left. }
+    rewrite IH.
+    + rewrite Et, <- app_assoc. reflexivity.
+    + rewrite <- (names_table_of (sync_tls (svc_set acc s))), Et, map_app, names_table_of. cbn.
+      rewrite <- app_assoc. exact Hd.
+Qed.
+
+(** ** The state invariant *)
+
+Definition svcs_ok (svcs : list service) : Prop := tbl_ok (table_of svcs).
+
+Definition st_inv (st : state) : Prop :=
+  svcs_ok (st_services st) /\ forall saved, st_disk st = Some saved -> svcs_ok saved.
+
+Lemma st_inv_init : st_inv init_state.
+Proof. split; [apply tbl_ok_nil|discriminate]. Qed.
+
+Lemma st_inv_save st : svcs_ok (st_services st) -> st_inv (save st).
+Proof. intros H. split; [exact H|]. cbn. intros saved E. inversion E; subst. exact H. Qed.
+
+Lemma svcs_ok_nodup svcs : svcs_ok svcs -> NoDup (map s_name svcs).
+Proof. intros (_ & H & _). now rewrite names_table_of in H. Qed.
+
+Lemma normalize_wf name o : wf_bi (mkBI name (o_hosts (normalize o)) (o_prefixes (normalize o))).
+Proof.
+  unfold wf_bi, normalize; cbn. split; [|split].
+  - destruct (o_hosts o); cbn; discriminate.
+  - destruct (o_prefixes o); cbn; discriminate.
+  - unfold normalize_prefixes. destruct (o_prefixes o) as [|p ps].
+    + constructor; [apply root_normalised|constructor].
+    + apply Forall_forall. intros x Hx. apply in_map_iff in Hx as (y & <- & _). now exists y.
+Qed.
+
+Lemma restart_table v st saved :
+  st_disk st = Some saved -> svcs_ok saved ->
+  st_services (restart v st) = [] \/ table_of (st_services (restart v st)) = table_of saved.
+Proof.
+  intros Ed Hs. unfold restart. rewrite Ed.
+  destruct (restore_all v saved) as [svcs|] eqn:Er; [|now left].
+  right. cbn. rewrite fold_set_table.
+  - cbn. now apply restore_all_table in Er.
+  - cbn. rewrite <- names_table_of, (restore_all_table _ _ _ Er), names_table_of.
+    now apply svcs_ok_nodup.
+Qed.
+
+Lemma restart_disk v st : st_disk (restart v st) = st_disk st.
+Proof.
+  unfold restart. destruct (st_disk st) as [saved|] eqn:E; [|reflexivity].
+  destruct (restore_all v saved); reflexivity.
+Qed.
+
+Lemma restart_inv v st : st_inv st -> st_inv (restart v st).
+Proof.
+  intros [Hs Hd]. split.
+  - destruct (st_disk st) as [saved|] eqn:E.
+    + destruct (restart_table v st saved E (Hd _ eq_refl)) as [H|H].
+      * unfold svcs_ok. rewrite H. apply tbl_ok_nil.
+      * unfold svcs_ok. rewrite H. now apply Hd.
+    + unfold restart. rewrite E. apply tbl_ok_nil.
+  - rewrite restart_disk. exact Hd.
+Qed.
+
+(** ** deployTargetsIntoService *)
+
+Definition early_ok (targets : list tgt_in) : bool :=
+  forallb valid_target_name (map tg_name targets) && forallb tg_healthy targets.
+
+Lemma deploy_into_cases v st s slot targets :
+  let r := deploy_into v st s slot targets in
+  let c := conflicts (table_of (st_services st)) (s_name s) (o_hosts (s_opts s)) (o_prefixes (s_opts s)) in
+  (early_ok targets = false /\ snd r = st /\ (fst r = Err EInvalidTarget \/ fst r = Err EUnhealthy)) \/
+  (early_ok targets = true /\ c = true /\ fst r = Err EHostInUse /\
+     st_services (snd r) = st_services st /\ st_disk (snd r) = Some (st_services st)) \/
+  (early_ok targets = true /\ c = false /\ fst r = Ok /\
+     exists s', bi_of s' = bi_of s /\ st_services (snd r) = install (st_services st) s' /\
+                st_disk (snd r) = Some (install (st_services st) s')).
+Proof.
+  cbv zeta. unfold deploy_into, early_ok.
+  destruct (forallb valid_target_name (map tg_name targets)); cbn [negb andb]; [|left; auto].
+  destruct (forallb tg_healthy targets); cbn [negb]; [|left; auto].
+  right.
+  destruct (conflicts (table_of (st_services st)) (s_name s) (o_hosts (s_opts s)) (o_prefixes (s_opts s))).
+  - left. repeat split.
+  - right. repeat split. eexists. split; [|split; reflexivity]. destruct slot; reflexivity.
+Qed.
+
+Lemma deploy_into_inv v st s slot targets :
+  st_inv st -> wf_bi (bi_of s) -> st_inv (snd (deploy_into v st s slot targets)).
+Proof.
+  intros Hi Hw. pose proof (deploy_into_cases v st s slot targets) as H. cbv zeta in H.
+  destruct H as [(_ & -> & _)|[(_ & _ & _ & Es & Ed)|(_ & Ec & _ & s' & Eb & Es & Ed)]].
+  - exact Hi.
+  - destruct Hi as [Hs _]. split; [unfold svcs_ok; rewrite Es; exact Hs|].
+    intros saved E. rewrite Ed in E. inversion E; subst. exact Hs.
+  - destruct Hi as [Hs _].
+    assert (Hok : svcs_ok (install (st_services st) s')).
+    { unfold svcs_ok. rewrite table_of_install, Eb. apply tbl_set_ok; auto. }
+    split; [rewrite Es; exact Hok|]. intros saved E. rewrite Ed in E. inversion E; subst. exact Hok.
+Qed.
+
+Lemma replace_svc_inv st name s s' :
+  st_inv st -> svc_get (st_services st) name = Some s -> bi_of s' = bi_of s ->
+  st_inv (save (replace_svc st s')).
+Proof.
+  intros [Hs _] Hg Hb. apply st_inv_save. unfold svcs_ok. cbn.
+  rewrite (table_of_replace _ name s s'); auto. now apply svcs_ok_nodup.
+Qed.
+
+Lemma set_pause_state_bi s new msg s' : set_pause_state s new msg = Some s' -> bi_of s' = bi_of s.
+Proof.
+  unfold set_pause_state. destruct (_ && _); [discriminate|]. intros H; inversion H; reflexivity.
+Qed.
+
+Lemma exec_inv v st c : st_inv st -> st_inv (snd (exec v st c)).
+Proof.
+  intros Hi. pose proof Hi as [Hs Hd]. destruct c as [name o t tg|name tg|name pct al|name|name fa|name msg|name|name|]; cbn [exec].
+  - destruct (init_check (normalize o)); [exact Hi|].
+    apply deploy_into_inv; [exact Hi|].
+    destruct (svc_get (st_services st) name); apply normalize_wf.
+  - destruct (svc_get (st_services st) name) as [s|] eqn:E; [|exact Hi].
+    apply deploy_into_inv; [exact Hi|].
+    destruct Hs as (_ & _ & Hw). rewrite Forall_forall in Hw. apply Hw.
+    apply in_map. now apply svc_get_some in E as [E _].
+  - unfold on_service. destruct (svc_get (st_services st) name) as [s|] eqn:E; [|now apply st_inv_save].
+    destruct (s_rollout s); [|now apply st_inv_save].
+    eapply replace_svc_inv; eauto.
+  - unfold on_service. destruct (svc_get (st_services st) name) as [s|] eqn:E; [|now apply st_inv_save].
+    eapply replace_svc_inv; eauto.
+  - unfold on_service. destruct (svc_get (st_services st) name) as [s|] eqn:E; [|now apply st_inv_save].
+    eapply replace_svc_inv; eauto.
+  - unfold on_service. destruct (svc_get (st_services st) name) as [s|] eqn:E; [|now apply st_inv_save].
+    destruct (set_pause_state s Stopped msg) as [s'|] eqn:Ep; [|exact Hi].
+    eapply replace_svc_inv; eauto using set_pause_state_bi.
+  - unfold on_service. destruct (svc_get (st_services st) name) as [s|] eqn:E; [|now apply st_inv_save].
+    destruct (set_pause_state s Running []) as [s'|] eqn:Ep; [|exact Hi].
+    eapply replace_svc_inv; eauto using set_pause_state_bi.
+  - destruct (svc_get (st_services st) name) as [s|] eqn:E; [|now apply st_inv_save].
+    apply st_inv_save. unfold svcs_ok. cbn. rewrite table_of_sync_tls, table_of_svc_remove.
+    now apply tbl_remove_ok.
+  - now apply restart_inv.
+Qed.
+
+Lemma exec_all_inv v : forall cs st, st_inv st -> st_inv (exec_all v st cs).
+Proof.
+  induction cs as [|c cs IH]; intros st Hi; cbn; [exact Hi|]. apply IH. now apply exec_inv.
+Qed.
+
+Lemma reachable_inv v cs : st_inv (exec_all v init_state cs).
+Proof. apply exec_all_inv. apply st_inv_init. Qed.
+
+(** * Part 7: the statements used by props/C04.v and props/C05.v *)
+
+(** ** Deploy and Remove, characterised *)
+
+Definition new_bi (name : str) (o : sopts) : binding_info :=
+  mkBI name (o_hosts (normalize o)) (o_prefixes (normalize o)).
+
+Lemma deploy_exec_cases v st name o t targets :
+  let r := exec v st (Deploy name o t targets) in
+  let T := table_of (st_services st) in
+  let c := conflicts T name (o_hosts (normalize o)) (o_prefixes (normalize o)) in
+  (exists e, init_check (normalize o) = Some e /\ r = (Err e, st)) \/
+  (init_check (normalize o) = None /\ early_ok targets = false /\ snd r = st /\
+     (fst r = Err EInvalidTarget \/ fst r = Err EUnhealthy)) \/
+  (init_check (normalize o) = None /\ early_ok targets = true /\ c = true /\
+     fst r = Err EHostInUse /\ st_services (snd r) = st_services st) \/
+  (init_check (normalize o) = None /\ early_ok targets = true /\ c = false /\
+     fst r = Ok /\ table_of (st_services (snd r)) = tbl_set T (new_bi name o)).
+Proof.
+  cbv zeta. cbn [exec]. destruct (init_check (normalize o)) as [e|]; [left; eauto|]. right.
+  set (s := match svc_get (st_services st) name with
+            | Some old => mkSvc name (normalize o) t (s_active old) (s_rollout old) (s_pause old)
+                                (s_roll old) (o_tls (normalize o))
+            | None => mkSvc name (normalize o) t [] None pause_new None (o_tls (normalize o))
+            end).
+  assert (En : s_name s = name) by (unfold s; destruct (svc_get (st_services st) name); reflexivity).
+  assert (Eo : s_opts s = normalize o) by (unfold s; destruct (svc_get (st_services st) name); reflexivity).
+  assert (Eb : bi_of s = new_bi name o) by (unfold bi_of, new_bi; now rewrite En, Eo).
+  pose proof (deploy_into_cases v st s false targets) as H. cbv zeta in H. rewrite En, Eo in H.
+  destruct H as [(H1 & H2 & H3)|[(H1 & H2 & H3 & H4 & _)|(H1 & H2 & H3 & s' & Hb & Hs & _)]].
+  - left. auto.
+  - right; left. auto.
+  - right; right. repeat split; auto. rewrite Hs, table_of_install, Hb, Eb. reflexivity.
+Qed.
+
+Lemma deploy_ok_inv v st name o t targets :
+  fst (exec v st (Deploy name o t targets)) = Ok ->
+  init_check (normalize o) = None /\ early_ok targets = true /\
+  conflicts (table_of (st_services st)) name (o_hosts (normalize o)) (o_prefixes (normalize o)) = false /\
+  table_of (st_services (snd (exec v st (Deploy name o t targets)))) =
+    tbl_set (table_of (st_services st)) (new_bi name o).
+Proof.
+  intros Hok. pose proof (deploy_exec_cases v st name o t targets) as H. cbv zeta in H.
+  destruct H as [(e & _ & H)|[(_ & _ & _ & [H|H])|[(_ & _ & _ & H & _)|(H1 & H2 & H3 & _ & H4)]]];
+    try (rewrite H in Hok; discriminate).
+  auto.
+Qed.
+
+Lemma early_ok_iff targets :
+  early_ok targets = true <->
+  forallb valid_target_name (map tg_name targets) = true /\ forallb tg_healthy targets = true.
+Proof. unfold early_ok. apply andb_true_iff. Qed.
+
+(** A deploy whose earlier phases pass is decided by the ownership test alone. *)
+Lemma deploy_decided v st name o t targets :
+  init_check (normalize o) = None ->
+  forallb valid_target_name (map tg_name targets) = true -> forallb tg_healthy targets = true ->
+  let r := fst (exec v st (Deploy name o t targets)) in
+  let foreign := exists h p n, In h (o_hosts (normalize o)) /\ In p (o_prefixes (normalize o)) /\
+                   In (h, p, n) (triples (table_of (st_services st))) /\ n <> name in
+  (foreign -> r = Err EHostInUse) /\ (~ foreign -> r = Ok).
+Proof.
+  intros Hi Hv Hh. cbv zeta.
+  assert (He : early_ok targets = true) by (apply early_ok_iff; auto).
+  pose proof (deploy_exec_cases v st name o t targets) as H. cbv zeta in H.
+  destruct H as [(e & H & _)|[(_ & H & _)|[(_ & _ & Hc & Hr & _)|(_ & _ & Hc & Hr & _)]]];
+    try congruence.
+  - split; [auto|]. intros Hn. exfalso. apply Hn. apply conflicts_iff in Hc as (h & p & n & H1 & H2 & H3 & H4).
+    exists h, p, n. repeat split; auto. now apply in_triples.
+  - split; [|auto]. intros (h & p & n & H1 & H2 & H3 & H4). exfalso.
+    rewrite conflicts_false_iff in Hc. apply H4. apply (Hc h p n H1 H2). now apply in_triples.
+Qed.
+
+Lemma deploy_conflict_rejected v st name o t targets h p n :
+  init_check (normalize o) = None ->
+  forallb valid_target_name (map tg_name targets) = true -> forallb tg_healthy targets = true ->
+  In h (o_hosts (normalize o)) -> In p (o_prefixes (normalize o)) ->
+  In (h, p, n) (triples (table_of (st_services st))) -> n <> name ->
+  fst (exec v st (Deploy name o t targets)) = Err EHostInUse /\
+  st_services (snd (exec v st (Deploy name o t targets))) = st_services st.
+Proof.
+  intros Hi Hv Hh H1 H2 H3 H4.
+  assert (He : early_ok targets = true) by (apply early_ok_iff; auto).
+  assert (Hc : conflicts (table_of (st_services st)) name (o_hosts (normalize o)) (o_prefixes (normalize o)) = true).
+  { apply conflicts_iff. exists h, p, n. repeat split; auto. now apply in_triples. }
+  pose proof (deploy_exec_cases v st name o t targets) as H. cbv zeta in H.
+  destruct H as [(e & H & _)|[(_ & H & _)|[(_ & _ & _ & Hr & Hs)|(_ & _ & Hc' & _)]]]; try congruence.
+  auto.
+Qed.
+
+Lemma deploy_moves v st name o t targets st' :
+  exec v st (Deploy name o t targets) = (Ok, st') ->
+  forall h p n, In (h, p, n) (triples (table_of (st_services st'))) <->
+    (n = name /\ In h (o_hosts (normalize o)) /\ In p (o_prefixes (normalize o))) \/
+    (n <> name /\ In (h, p, n) (triples (table_of (st_services st)))).
+Proof.
+  intros E h p n. assert (Hok : fst (exec v st (Deploy name o t targets)) = Ok) by now rewrite E.
+  destruct (deploy_ok_inv _ _ _ _ _ _ Hok) as (_ & _ & _ & Ht). rewrite E in Ht. cbn in Ht.
+  rewrite !in_triples, Ht, binds_tbl_set. reflexivity.
+Qed.
+
+Lemma remove_ok_inv v st name :
+  fst (exec v st (Remove name)) = Ok ->
+  table_of (st_services (snd (exec v st (Remove name)))) = tbl_remove (table_of (st_services st)) name.
+Proof.
+  cbn [exec]. destruct (svc_get (st_services st) name); [|discriminate]. intros _. cbn.
+  now rewrite table_of_sync_tls, table_of_svc_remove.
+Qed.
+
+Lemma remove_releases v st name st' :
+  exec v st (Remove name) = (Ok, st') ->
+  forall h p n, In (h, p, n) (triples (table_of (st_services st'))) <->
+    n <> name /\ In (h, p, n) (triples (table_of (st_services st))).
+Proof.
+  intros E h p n. assert (Hok : fst (exec v st (Remove name)) = Ok) by now rewrite E.
+  pose proof (remove_ok_inv _ _ _ Hok) as Ht. rewrite E in Ht. cbn in Ht.
+  rewrite !in_triples, Ht, binds_tbl_remove. tauto.
+Qed.
+
+Lemma remove_then_deploy v st name st1 name2 o t targets :
+  exec v st (Remove name) = (Ok, st1) ->
+  init_check (normalize o) = None ->
+  forallb valid_target_name (map tg_name targets) = true -> forallb tg_healthy targets = true ->
+  (forall h p n, In h (o_hosts (normalize o)) -> In p (o_prefixes (normalize o)) ->
+     In (h, p, n) (triples (table_of (st_services st))) -> n = name \/ n = name2) ->
+  fst (exec v st1 (Deploy name2 o t targets)) = Ok.
+Proof.
+  intros E Hi Hv Hh Hfree.
+  apply (deploy_decided v st1 name2 o t targets Hi Hv Hh).
+  intros (h & p & n & H1 & H2 & H3 & H4).
+  apply (remove_releases _ _ _ _ E) in H3 as [H5 H3].
+  destruct (Hfree h p n H1 H2 H3); contradiction.
+Qed.
+
+Lemma one_winner_half v st n1 o1 t1 tg1 n2 o2 t2 tg2 h p :
+  n1 <> n2 ->
+  In h (o_hosts (normalize o1)) -> In p (o_prefixes (normalize o1)) ->
+  In h (o_hosts (normalize o2)) -> In p (o_prefixes (normalize o2)) ->
+  fst (exec v st (Deploy n1 o1 t1 tg1)) = Ok ->
+  fst (exec v st (Deploy n2 o2 t2 tg2)) = Ok ->
+  let st1 := snd (exec v st (Deploy n1 o1 t1 tg1)) in
+  fst (exec v st1 (Deploy n2 o2 t2 tg2)) = Err EHostInUse /\
+  st_services (snd (exec v st1 (Deploy n2 o2 t2 tg2))) = st_services st1.
+Proof.
+  intros Hne H1 H2 H3 H4 Ok1 Ok2. cbv zeta.
+  destruct (deploy_ok_inv _ _ _ _ _ _ Ok1) as (_ & _ & _ & Ht).
+  destruct (deploy_ok_inv _ _ _ _ _ _ Ok2) as (Hi & He & _ & _).
+  apply early_ok_iff in He as [Hv Hh].
+  apply (deploy_conflict_rejected _ _ _ _ _ _ h p n1); auto.
+  apply in_triples. rewrite Ht. apply binds_tbl_set. left. auto.
+Qed.
+
+(** ** Reachable states *)
+
+Lemma reachable_ok v cs :
+  let st := exec_all v init_state cs in
+  pair_owned_once (table_of (st_services st)) = true /\
+  NoDup (map s_name (st_services st)) /\
+  (forall saved, st_disk st = Some saved ->
+     pair_owned_once (table_of saved) = true /\ NoDup (map s_name saved)).
+Proof.
+  cbv zeta. destruct (reachable_inv v cs) as [Hs Hd]. split; [|split].
+  - apply pair_owned_once_iff. apply Hs.
+  - now apply svcs_ok_nodup.
+  - intros saved E. specialize (Hd _ E). split; [apply pair_owned_once_iff; apply Hd|now apply svcs_ok_nodup].
+Qed.
+
+Lemma reachable_wf v cs :
+  let t := table_of (st_services (exec_all v init_state cs)) in
+  pair_owned_once t = true /\ norm_table t /\
+  (forall s, In s t -> bi_hosts s <> [] /\ bi_prefixes s <> []).
+Proof.
+  cbv zeta. destruct (reachable_inv v cs) as [Hs _]. split; [|split].
+  - apply pair_owned_once_iff. apply Hs.
+  - now apply tbl_ok_norm.
+  - destruct Hs as (_ & _ & Hw). rewrite Forall_forall in Hw. intros s Hi.
+    destruct (Hw s Hi) as (H1 & H2 & _). auto.
+Qed.
+
+(** ** C04 statements *)
+
+Lemma route_spec_full t host path :
+  norm_table t ->
+  route_spec t host path (service_for t host path) /\
+  (service_for t host path = None <->
+   forall l, level_of t host l -> forall p n, ~ candidate t l path p n) /\
+  (pair_owned_once t = true ->
+   forall r, route_spec t host path r -> r = service_for t host path).
+Proof.
+  intros Hn. split; [now apply service_for_spec|]. split; [now apply service_for_none_iff|].
+  intros Ho r Hr. apply pair_owned_once_iff in Ho.
+  apply (route_spec_unique t host path _ _ Ho Hn Hr). now apply service_for_spec.
+Qed.
+
+Lemma tie_unique t l path p1 n1 p2 n2 :
+  pair_owned_once t = true -> norm_table t ->
+  candidate t l path p1 n1 -> candidate t l path p2 n2 -> length p1 = length p2 ->
+  p1 = p2 /\ n1 = n2.
+Proof. intros Ho. apply pair_owned_once_iff in Ho. now apply candidate_tie. Qed.
+
+(** Any list holding exactly the bindings of the level, sorted by descending
+    prefix length, gives the same first match. *)
+Lemma impl_order_free_set t host path bs :
+  pair_owned_once t = true -> norm_table t ->
+  (forall p n, In (p, n) bs <-> binds t (host_level t host) p n) -> desc_sorted bs ->
+  first_match path bs = service_for t host path.
+Proof.
+  intros Ho Hn Hin Hs. apply pair_owned_once_iff in Ho.
+  apply (route_spec_unique t host path _ _ Ho Hn); [|now apply service_for_spec].
+  exists (host_level t host). split; [apply host_level_spec|].
+  apply (Sorted_StronglySorted longer_first_trans) in Hs.
+  pose proof (first_match_spec path bs Hs) as H.
+  destruct (first_match path bs) as [[n p]|].
+  - destruct H as (I & M & Mx). split.
+    + apply candidate_iff; [exact Hn|]. split; [apply in_bindings_for; now apply Hin|exact M].
+    + intros p' n' Hc. apply candidate_iff in Hc as [I' M']; [|exact Hn].
+      apply in_bindings_for, Hin in I'. eauto.
+  - intros p n Hc. apply candidate_iff in Hc as [I' M']; [|exact Hn].
+    apply in_bindings_for, Hin in I'. rewrite (H _ _ I') in M'. discriminate.
+Qed.
+
+Lemma impl_order_free t host path bs :
+  pair_owned_once t = true -> norm_table t ->
+  Permutation bs (bindings_for t (host_level t host)) -> desc_sorted bs ->
+  first_match path bs = service_for t host path.
+Proof.
+  intros Ho Hn Hp Hs. apply pair_owned_once_iff in Ho. now apply first_match_service_for.
+Qed.
+
+Lemma table_order_free t1 t2 :
+  Permutation t1 t2 -> pair_owned_once t1 = true -> norm_table t1 ->
+  forall host path,
+    service_for t1 host path = service_for t2 host path /\ route t1 host path = route t2 host path.
+Proof.
+  intros P Ho Hn host path. apply pair_owned_once_iff in Ho.
+  apply Permutation_same_services in P. unfold route.
+  split; now apply service_for_ext.
+Qed.
+
+Lemma history_free v1 v2 cs1 cs2 :
+  Permutation (table_of (st_services (exec_all v1 init_state cs1)))
+              (table_of (st_services (exec_all v2 init_state cs2))) ->
+  forall host_header path,
+    route (table_of (st_services (exec_all v1 init_state cs1))) host_header path =
+    route (table_of (st_services (exec_all v2 init_state cs2))) host_header path.
+Proof.
+  intros P hh path. destruct (reachable_wf v1 cs1) as (Ho & Hn & _).
+  now apply table_order_free.
+Qed.
+
+Lemma port_ignored h port :
+  h <> [] -> plain h -> forallb is_digit port = true ->
+  request_host_key (h ++ colon :: port) = h /\ request_host_key h = h.
+Proof.
+  intros Hne Hp Hd. split.
+  - apply request_host_key_port; auto. now apply digits_plain.
+  - apply request_host_key_no_colon. apply Hp.
 Qed.
